@@ -69,7 +69,21 @@ class x12xml_simple(x12xml):
         for i in range(len(seg_data)):
             child_node = seg_node.get_child_node_by_idx(i)
             if child_node is None:
-                # more elements than the segment defines: already reported as an error
+                # more elements than the segment defines (reported as an error): keep the data, named by position
+                ele_data = seg_data.get('%02i' % (i + 1))
+                ele_id = '%s%02i' % (seg_node.id, i + 1)
+                if ele_data.is_empty():
+                    pass
+                elif ele_data.is_composite():
+                    (xname, attrib) = self._get_comp_info(seg_node_id)
+                    self.writer.push(xname, attrib)
+                    for j in range(len(ele_data)):
+                        (xname, attrib) = self._get_subele_info('%s-%02i' % (ele_id, j + 1))
+                        self.writer.elem(xname, ele_data[j].get_value(), attrib)
+                    self.writer.pop()
+                else:
+                    (xname, attrib) = self._get_ele_info(ele_id)
+                    self.writer.elem(xname, ele_data.format(), attrib)
                 continue
             if child_node.usage == 'N' or seg_data.get('%02i' % (i + 1)).is_empty():
                 pass  # Do not try to ouput for invalid or empty elements
@@ -80,7 +94,10 @@ class x12xml_simple(x12xml):
                 for j in range(len(comp_data)):
                     subele_node = child_node.get_child_node_by_idx(j)
                     if subele_node is None:
-                        continue  # more components than the composite defines
+                        # more components than the composite defines: keep the data, named by position
+                        (xname, attrib) = self._get_subele_info('%s%02i-%02i' % (seg_node.id, i + 1, j + 1))
+                        self.writer.elem(xname, comp_data[j].get_value(), attrib)
+                        continue
                     (xname, attrib) = self._get_subele_info(subele_node.id)
                     self.writer.elem(xname, comp_data[j].get_value(), attrib)
                 self.writer.pop()  # end composite
